@@ -63,7 +63,9 @@ func cmdArgs(p *lang.Process) (err error) {
 		jObj.Error = err.Error()
 		p.ExitNum = 1
 	}
-	jObj.Flags = flagsT.GetMap()
+	if flagsT != nil {
+		jObj.Flags = flagsT.GetMap()
+	}
 
 	b, err = json.Marshal(jObj, false)
 	if err != nil {
